@@ -136,4 +136,19 @@ CHECKS = {
         require_classes=dict(quick=["multi_read", "empty_listing", "wrong_offset_rejected", "level1", "level2", "level3", "end_nil", "end_empty", "end_eof"], thorough=[]),
         assumptions=["every read count is at least the largest encoded entry, as the property states", "the underlying iterator returns no errors"],
     ),
+    "C14": dict(
+        pkg="sessconc",
+        race=True,
+        level="exploration",
+        groups=[G("^TestC14_", 400, 4000, shrinktime="10s")],
+        rule="a sequential prefix binds/opens shared fids 0..3, then 2..5 goroutines run 3..8 operations each on one SFileSys(mockfs), sharing those fids on purpose "
+             "(clunk/remove vs read/walk/stat/open/create on the same fid) while new fids are allocated disjointly per goroutine; 25% of operations have a file-system "
+             "failure injected. In 75% of the cases every mock file-system call parks at a gate inside the session's critical section and a generated schedule decides which "
+             "parked call proceeds next; 25% run free. Oracle: every operation returns (deadlock detector: nothing parked, nothing finishing for 10 s); the mock's per-handle "
+             "and per-open-file in-call counters never exceed 1; sequential-consistency check of all results against the reference model (porcupine) where enabled; no fid "
+             "locked or half-bound at quiescence; race detector. Non-trivial = two operations on the same fid overlapped in real time.",
+        require_classes=dict(quick=["same_fid_overlap", "gated", "free_running"], thorough=[]),
+        assumptions=["clients never allocate the same new fid from two requests at once (the property's proviso)",
+                     "interleavings are controlled at file-system-call granularity plus whatever the Go scheduler adds; race freedom is 'no report on the explored runs'"],
+    ),
 }
